@@ -363,3 +363,45 @@ def stack_traces(res, tier, seed, wd):
     res.notes["stack_runs"] = s["runs"]
     log("[B] %d runs of the real stack client -> QueuingMetricSink -> buffered sink -> wire (%d calls)" % (s["runs"], s["calls"]))
     return tq, tw, s["runs"]
+
+
+# ----------------------------------------------------------------------------- binding self-test (all engines)
+def selftest_corruptions(res, trace_module, clean_run, corruptions, wd, name):
+    """`clean_run` is one recorded run (list of events, accepted by the trace spec); `corruptions` is a list of
+    (label, function(events) -> corrupted events or None). The trace spec must accept the clean run and reject
+    every corrupted copy - otherwise the spec is not bound to what the code does (tool error)."""
+    import copy
+    runs = [("clean", clean_run)]
+    for label, fn in corruptions:
+        c = fn(copy.deepcopy(clean_run))
+        if c is None:
+            raise ToolError("binding self-test %s: corruption '%s' not applicable to the chosen run" % (name, label))
+        runs.append((label, c))
+    p = os.path.join(wd, "selftest-%s.ndjson" % name)
+    starts = []
+    n = 0
+    with open(p, "w") as f:
+        for label, evs in runs:
+            starts.append(n + 1)
+            for e in evs:
+                f.write(json.dumps(e) + "\n")
+                n += 1
+    v = validate_trace(trace_module, p, wd, tag="self" + name)
+    flagged = {b[2] for b in v["bad"]}
+    if starts[0] in flagged:
+        raise ToolError("binding self-test %s: the unmodified run is flagged: %s" % (name, v["bad"][:3]))
+    missing = [runs[i][0] for i in range(1, len(runs)) if starts[i] not in flagged]
+    if missing:
+        raise ToolError("binding self-test %s: corrupted traces NOT rejected: %s" % (name, missing))
+    res.notes["binding_selftest_" + name] = "accepted the recorded run, rejected: " + ", ".join(r[0] for r in runs[1:])
+    log("[self] %s: %d corrupted traces rejected, clean trace accepted" % (name, len(runs) - 1))
+
+
+def first_run(events, pred, maxlen=1500):
+    """first run (reset..next reset) of a trace for which pred(run events) holds"""
+    starts = [i for i, e in enumerate(events) if e.get("ev") == "reset"] + [len(events)]
+    for a, b in zip(starts, starts[1:]):
+        seg = events[a:b]
+        if len(seg) <= maxlen and pred(seg):
+            return seg
+    return None
